@@ -1,5 +1,5 @@
 SPECIFICATION TSpec
-CONSTANTS FltIds = {} MemIds = {} Cfgs = {} Items = {}
+CONSTANTS FltIds = {} MemIds = {} Cfgs = {} Items = {} CheckDesign = FALSE
 INVARIANT Inv
 POSTCONDITION Accepted
 CHECK_DEADLOCK FALSE
